@@ -70,7 +70,7 @@ def _gen(ctx):
     # (table cells only for the HTML target: the EPUB chapter extractor keeps cell text in its table list, which
     # this kernel does not read)
     wrappers = ("div", "li", None) if ctx.params.get("target") == "epub" else ("div", "td", "li", None)
-    if ctx.tier == "quick":
+    if ctx.tier == "quick" or ctx.params.get("wrappers") == "few":
         wrappers = ("div" if ctx.params.get("target") == "epub" else "td", None)
     wrapper = wrappers[ctx.choice("open_wrapper", len(wrappers))] if ctx.params.get("mode") != "stray" else None
     if wrapper == "td":
@@ -343,8 +343,12 @@ def _public_replay(kernel, tier, params, inputs):
 
 
 def _parts(tier):
-    items = 2 if tier == "quick" else 3
-    return [{"target": t, "outer": o, "items": items, "mode": md} for t in ("html", "epub")
+    if tier == "quick":
+        return [{"target": t, "outer": o, "items": 2, "mode": md} for t in ("html", "epub")
+                for o in range(len(REMOVABLE)) for md in ("inner", "stray")]
+    # thorough: all wrappers (div / td / li / none) with two inner items.  (Three inner items with the
+    # round-3 choice dimensions did not finish in 25 minutes; that depth is outside the claim.)
+    return [{"target": t, "outer": o, "items": 2, "mode": md} for t in ("html", "epub")
             for o in range(len(REMOVABLE)) for md in ("inner", "stray")]
 
 
@@ -374,7 +378,7 @@ k = Kernel("K1", "removal state machine of both HTML-family parsers on symbolic 
                         "script/style content delivered as data); validated at replay by rendering and running feed()"],
            outside=["self-closing form of the removable element itself (<script/>) in HTML: HTML5 and XHTML disagree on it "
                     "(for EPUB chapters, which are XHTML, it is covered)",
-                    "attribute values containing markup; tag names longer than 6 characters; more than 2 (3) inner items"],
+                    "attribute values containing markup; tag names longer than 6 characters; more than 2 inner items"],
            timeout={"quick": 280, "thorough": 2400})
 k.replayer = _public_replay
 k2 = Kernel("K2", "whole documents through feed()/close() of every carrier: constructs left open at the end of the input, "
@@ -398,7 +402,7 @@ META = {
                   "replayed through the real parser and public entry points.  A second kernel drives whole documents (upper-case names, "
                   "attributes, text directly next to the removed element, every construct that can be left open at the end of "
                   "the input) through feed()/close() of all four carriers (read_html, read_mhtml, MSG HTML body, EPUB chapter).",
-    "level_note": "Trusted: the callback lowering of html.parser (checked by replay through feed()). Bounds: <= 2 (3) inner "
+    "level_note": "Trusted: the callback lowering of html.parser (checked by replay through feed()). Bounds: <= 2 inner "
                   "items, tag names up to 6 chars, one removable element per document.",
     "technique": "symbolic execution of the HTMLParser handler methods on bounded symbolic tag strings (symrun CharStr), "
                  "set membership as solver-decided disjunctions, replay through the real parser",
